@@ -81,12 +81,12 @@ type tierCfg struct {
 var props = map[string]tierCfg{
 	"C07": {QuickRuns: 12000, QuickBudgetS: 40, ThoroughS: 600, Race: true, RaceQuickRuns: 3000, Level: "exploration"},
 	"C09": {QuickRuns: 48000, QuickBudgetS: 40, ThoroughS: 600, Level: "exploration"},
-	"C10": {QuickRuns: 30000, QuickBudgetS: 40, ThoroughS: 600, Race: true, RaceQuickRuns: 6000, Level: "exploration"},
+	"C10": {QuickRuns: 25000, QuickBudgetS: 40, ThoroughS: 600, Race: true, RaceQuickRuns: 5000, Level: "exploration"},
 	"C14": {QuickRuns: 16000, QuickBudgetS: 40, ThoroughS: 600, Level: "exploration"},
 	"C15": {QuickRuns: 1600, QuickBudgetS: 40, ThoroughS: 600, Level: "fault_enumeration"},
 	"C16": {QuickRuns: 32000, QuickBudgetS: 40, ThoroughS: 600, Level: "exploration"},
-	"C19": {QuickRuns: 12000, QuickBudgetS: 40, ThoroughS: 600, Race: true, RaceQuickRuns: 2400, Level: "exploration"},
-	"C20": {QuickRuns: 48000, QuickBudgetS: 40, ThoroughS: 600, Race: true, RaceQuickRuns: 16000, Level: "exploration"},
+	"C19": {QuickRuns: 9000, QuickBudgetS: 40, ThoroughS: 600, Race: true, RaceQuickRuns: 1800, Level: "exploration"},
+	"C20": {QuickRuns: 30000, QuickBudgetS: 40, ThoroughS: 600, Race: true, RaceQuickRuns: 9000, Level: "exploration"},
 }
 
 type violation struct {
